@@ -344,16 +344,18 @@ def run_concurrent(ctx, fam, inputs, nthreads=6, secs=3.0, name=None):
 
 
 def raised_by_code_under_test(text):
-    """Does a traceback (text) end inside the repository's own sources?  Then the exception came out of the code under test while the
-    harness was driving it the way it does - successfully - on the unchanged tree: that is a verdict about the code, not a failure of
-    the machinery.  Returns (file, function) of the innermost frame, or None."""
+    """Did the exception of this traceback (text) arise inside a call the harness made into the repository's code - i.e. is there a frame
+    of the repository's own sources below the last harness frame?  Then it came out of the code under test (or a library it called)
+    while the harness was driving it the way it does - successfully - on the unchanged tree: a verdict about the code, not a failure of
+    the machinery.  Returns (file, function) of the deepest repository frame, or None."""
     import re
     frames = re.findall(r'File "([^"]+)", line \d+, in (\S+)', text or '')
     if not frames:
         return None
-    fname, func = frames[-1]
-    repo = os.environ.get('GAMBIT_REPO', '/repo')
-    if '/src/gambit/' in fname and (fname.startswith(repo) or '/gambit/' in fname) and '/harness/' not in fname:
+    last_harness = max([i for i, (f, _) in enumerate(frames) if '/harness/' in f], default=-1)
+    inside = [(f, fn) for f, fn in frames[last_harness + 1:] if '/src/gambit/' in f]
+    if inside:
+        fname, func = inside[-1]
         return os.path.basename(fname), func
     return None
 
@@ -404,6 +406,14 @@ def main(pid, run, replay=None, argv=None):
     except Exception as e:
         text = str(e) if isinstance(e, tlc.MachineryError) else traceback.format_exc()
         where = None if args.replay else raised_by_code_under_test(text)
+        if where is None and ctx.violations and not args.replay:
+            # rejections judged by TLC and confirmed by re-execution were already reported; a later failure of the machinery (typically a
+            # self-test that no longer fits because the code misbehaves) does not take the verdict back
+            print(f'NOTE property={pid}: the run ended early after reporting violations: {str(e)[:300]}', file=sys.stderr, flush=True)
+            ctx.notes.append(f'run ended early after violations were reported: {str(e)[:500]}')
+            ctx.write_evidence()
+            print(f'{pid} {args.tier}: violations={len(ctx.violations)} (run ended early)', flush=True)
+            return 1
         if where is None:
             if not isinstance(e, tlc.MachineryError):
                 traceback.print_exc()
